@@ -27,7 +27,7 @@ MIN_DISTINCT = {"quick": 300, "thorough": 20000}
 
 def configs():
     out = []
-    for with_bg in (False, True):
+    for with_bg in (False, True, "poller"):
         out.append((2, (("s",), ("s",)), with_bg))
         out.append((2, (("s", "s"), ("a", "s")), with_bg))
         out.append((2, (("sr", "s"), ("a", "ar", "s")), with_bg))
@@ -248,12 +248,12 @@ def run(ctx):
         return
     if ctx.shard[0] == 0:
         n_sys = 0
-        for cfg in (cfgs[:4] if ctx.quick else cfgs):
+        for cfg in ([cfgs[1], cfgs[6], cfgs[11]] if ctx.quick else cfgs):
             cen = sharedconn.run_shared(cfg, 0, "scripted", census=True)
             record(ctx, cen)
             points = [(name, nth) for (name, nth, tag) in cen["census"] if name.startswith("c") or name.startswith("spawned")]
             ctx.maximum("census_yield_points", len(points))
-            step = 1
+            step = 2 if ctx.quick else 1
             for (name, nth) in points[::step]:
                 for d in ((40,) if ctx.quick else (2, 40)):
                     record(ctx, sharedconn.run_shared(cfg, 0, "scripted", script=[(name, nth, d)]))
@@ -261,7 +261,7 @@ def run(ctx):
                 if ctx.enough():
                     return
         ctx.count("systematic_delay_runs", n_sys)
-    for i in range(ctx.budget(1200, 1000000)):
+    for i in range(ctx.budget(800, 1000000)):
         cfg = rng.choice(cfgs)
         policy = "random" if i % 4 else "pct"
         obs = sharedconn.run_shared(cfg, (ctx.seed, ctx.shard[0], i), policy, p_switch=rng.choice([0.05, 0.2, 0.5]))
